@@ -51,7 +51,10 @@ def generate(seed, tier):
         name = S.add_cmd(g, d, 200)
         d['cmds'][name]['cuts'] = [g.int(1, 20) for _ in range(g.int(2, 5))]
         d['cmds'][name]['content']['size'] = max(d['cmds'][name]['content']['size'], 60)
-        actors = [[{'op': 'streaming_shell', 'cmd': name, 'decode': False, 'rt': 30.0, 'tt': 30.0, 'nested': actors[0], 'nested_after': g.int(1, 2)}]]
+        from ..device import shell_payloads
+        npay = max(1, len(shell_payloads(d, name)))
+        # suspend the generator after any item, including the last one (then only the stream's CLSE is outstanding)
+        actors = [[{'op': 'streaming_shell', 'cmd': name, 'decode': False, 'rt': 30.0, 'tt': 30.0, 'nested': actors[0], 'nested_after': g.pick([1, 2, npay, npay, g.int(1, npay)])}]]
     for plan in d['cut_plans']:
         if plan['policy'] in ('one', 'tiny'):
             plan['policy'] = g.pick(['record', 'straddle', 'random'])
